@@ -87,6 +87,10 @@ func ChildMain() {
 	}
 	dir := os.Getenv("VERIF_CHILD_DIR")
 	killAt, _ := strconv.ParseInt(os.Getenv("VERIF_CHILD_KILLAT"), 10, 64)
+	killAck := -1
+	if v, err := strconv.Atoi(os.Getenv("VERIF_CHILD_KILLACK")); err == nil && os.Getenv("VERIF_CHILD_KILLACK") != "" {
+		killAck = v
+	}
 	from, _ := strconv.Atoi(os.Getenv("VERIF_CHILD_FROM"))
 	to, _ := strconv.Atoi(os.Getenv("VERIF_CHILD_TO"))
 	r := &ev.Result{}
@@ -112,6 +116,12 @@ func ChildMain() {
 					say("ackfail %d", i)
 				} else {
 					say("ack %d", i)
+				}
+				if killAck == i {
+					// the process dies the moment the operation has been acknowledged (nothing of it may still
+					// be on its way to the disk)
+					_ = syscall.Kill(os.Getpid(), syscall.SIGKILL)
+					select {}
 				}
 			}
 		}
@@ -246,6 +256,7 @@ func tail(s string, n int) string {
 type CrashCase struct {
 	Case
 	Only     int64 `json:"only,omitempty"`      // replay: crash only at this mutation index
+	OnlyAck  int   `json:"only_ack,omitempty"`  // replay: kill right after step OnlyAck-1 was acknowledged (Only is then out of range)
 	OnlyRec  int64 `json:"only_rec,omitempty"`  // replay: additionally crash recovery at this index
 	RecEvery int   `json:"rec_every,omitempty"` // explore crashes inside recovery for every k-th crash point (0 = never)
 	Debris   bool  `json:"debris,omitempty"`    // replay: only the "next process died while Badger created its memtable file" state of crash point Only
@@ -782,6 +793,31 @@ func ExecC04(cc CrashCase) *ev.Result {
 			os.RemoveAll(snap)
 		}
 		os.RemoveAll(d)
+	}
+	// kills right after an acknowledgement: the operation has returned, so it is in effect whatever is still
+	// going on in the background (Badger's write pipeline, the cleaner)
+	if cc.Only == 0 || cc.OnlyAck > 0 {
+		for i := range c.Ops {
+			if cc.OnlyAck > 0 && i != cc.OnlyAck-1 {
+				continue
+			}
+			if cc.Bulk && c.Ops[i].K != "commit" {
+				continue
+			}
+			d := filepath.Join(base, fmt.Sprintf("ack%d", i))
+			os.MkdirAll(d, 0o755)
+			run, err := runChild("crash", c, d, 0, fmt.Sprintf("VERIF_CHILD_KILLACK=%d", i))
+			if err != nil {
+				r.Failf("INFRA: child run failed: %v", err)
+				panic(r.Fail)
+			}
+			r.Count("ack_kill_runs", 1)
+			if run.killed && !judgeCrash(c, r, d, run, 0, 0, fmt.Sprintf("killed right after step %d was acknowledged", i)) {
+				r.ReplayCase = CrashCase{Case: cc.Case, Only: 1 << 40, OnlyAck: i + 1, OddPath: cc.OddPath}
+				return r
+			}
+			os.RemoveAll(d)
+		}
 	}
 	r.NonTrivial = interior > 0
 	r.Count("interior_crash_points", int64(interior))
